@@ -21,9 +21,9 @@ import common as C                              # noqa: E402
 PROPERTIES = ["C16"]
 MANIFEST = {
     "C16": {
-        "technique": "Lean 4 proof about an executable model of src/Document/Xml.cpp (skipSpace/comment loop, readToken, parseElement/content loop with cursor rewind, processing-instruction loop, unescapeString/escapeString, Element::toString) and of the Xml::Variant / Xml::Element handle heap of Xml.hpp (reference-counted blocks, sharing copies, clear, mutable accessors that clone unless the count is one) + differential correspondence model vs the real Xml.cpp (ASan/UBSan, exactly sized heap copies, watchdog, allocation budget) + independent Python reference (strict regex tokenizer with tag stack, xml.etree, own serialiser, escape/unescape, position checks) + tie by TRANSLATION for the tokenizer: tools/gen_xml.py (lexer + parser + continuation-passing compiler of a C++ subset; refuses what it does not know) rewrites the current bodies of skipSpace / readToken / parseText / syntaxError / String::isSpace / the processing-instruction loop of parse / the loop body and tables of escapeString into Lean on every run (helpers inlined, conditions normalised), and theorems prove the model functions equal to them",
-        "text": "Machine-checked theorems over ALL byte strings / ALL element trees of the model: parse_total (the loop fuel text-length+2 handed to every loop and to the recursion is never exhausted), parse_no_oob (every read goes through peek/cstr which yield .oob behind the terminator; never reached), error_pos_inside (a reported line/column is exactly the line/column of an offset 0..length of the text, CR LF / CR / LF line ends), error_pos_exact, element_positions_exact (every element of a successful parse, at any depth, carries the line/column — computed from the text — of an offset at which a '<' stands; the proof carries 'the cursor's line number and line start are the line state of its offset' through every loop, so a stale line start such as a comment end kept as a bare pointer breaks it), comments_are_whitespace + comments_between_tokens + comments_in_content (same-text forms: at every place where the parser looks for a token or for element content, starting in front of a complete comment equals starting behind it — token, next cursor, children, texts, final cursor; in front of a comment <!--body--> with no earlier '-->' skipSpace continues exactly as its outer loop does behind it, with right line bookkeeping; skipSpace is the only white-space skipper), pi_before_root (a <?..?> with ANY body that does not contain '?>' — '<', '<!--', lone '?', CR / LF / CRLF anywhere — is stepped over by one round of the prologue loop: it ends at its first '?>'), pi_prologue_skipped (end to end: white space + any number of such instructions + '<' of the root: parseDoc = parsing the root at the cursor behind the prologue, line bookkeeping right), escape_unescape (unescape(escape s) = s for text and attribute mode), unescape_no_growth, escape_no_overflow_policy (for EVERY reserve policy that reserves at least the minimum), escape_no_overflow (escapeString's own buffer management — initial slack, reserve at every escape, String::detach rounding, raw pointer writes — modelled with checked memory over constants regenerated from the sources: never a write at or behind the capacity, buffer = escape s), roundtrip / roundtrip_element / roundtrip_inside (parse(toString e) = e up to recorded line/column for every tree with well-formed names, distinct attribute keys, arbitrary NUL-free values, non-blank non-adjacent texts; by mutual induction on the tree with the parser positioned inside a larger text).; PropsDecor: roundtrip_decorated / comments_do_not_change_result (two-text form of the comment clause: for every well-formed tree, every placement of white-space/comment runs at every place where the tokenizer skips white space — before the root, inside start and end tags, around '=', before child elements and end tags, next to text — and either quote kind per attribute, the decorated text parses to the same tree as the plain serialisation); PropsHeap (copy independence on the handle heap, under the invariant 'reference count >= number of handles'): release_keeps_values (dropping handles frees only blocks nobody points to and keeps the value of every variable), step_independent / independent / copy_then_any_history / assign_copies_value / reach_inv (for ALL histories of ALL operations of the model — Variant copy assignment, clear, operator=(const String&) incl. its in-place write when the count is one, and writes through the mutable toElement() down any path (clone of a shared element, replacement of a text/null, in-place use when the count is one) followed by any edit: rename, attribute, append text/element/another variable's Variant, remove first child, Element::clear, text assignment to a content entry —, values of any depth and sharing: the copy has the source's value and a variable no operation writes to keeps its value; the invariant holds in every reachable state).; PropsGen (tie by translation, over Nstd/Generated/XmlScan.lean regenerated from the CURRENT Xml.cpp / String.hpp on every run): skipSpace_is_translation (the model's skipLoop = the iteration of the translated bodies of the outer loop and of the comment loop of skipSpace, for every text, fuel, mode, cursor, commentEnd), readToken_is_translation (the translated body of readToken behind its skipSpace() = the model's tokenAt: token type, value, position, next cursor, error line/column/message; nothing else written), name_scan_is_translation, isSpace_is_translation, syntaxError_is_translation, parseText_is_translation (parseText = iteration of the translated loop body), parsePi_is_translation (the model's piInner = iteration of the translated body of the loop over one processing instruction of Xml::Private::parse), escapeByte_is_translation / escape_is_translation (ONE run of the translated loop body of escapeString — plain-byte test, String::find in escapeChars, choice of escapeStrings / lineBreakStrings entry, writes through dest — appends exactly the model's escapeByte, for both modes and every byte; escape = flatMap of it), escapePlain_translated / entityTable_translated; PropsRef: unescape_numeric_ref (every decimal numeric character reference: UTF-8 of its value, 2^64 saturation, cut to 32 bit), utf8_length (boundaries 0x80 / 0x800 / 0x10000 / 0x110000: nothing from 0x110000 on), attrSet_keys / attrSet_lookup_self / attrSet_lookup_other (attribute order = first occurrence, last value of a repeated name wins).  The model is tied to the current Xml.cpp on every run by executing identical op lines (parse, tostr, rt = Xml::toString then parse, esc, unesc, copy, deep; pparse/parser/file/nofile = the public entry points Xml::parse(const String&), Xml::Parser, Xml::save+load incl. their failure branches (missing directory, a directory opened as a file); hassign/hclear/hsetstr/hmut = histories over 4 Xml::Variant variables with the value of EVERY variable printed after EVERY op: copy assignment, clear, text assignment, mutable toElement() along a path followed by rename/attribute/append/remove/clear/text assignment/append of another variable, all histories of <= 3 ops over 12 ops plus state-aware random histories) on both and comparing ok/fail, error line/column/message class, the dump of the parsed tree with element positions, and serialised bytes, and for escm the capacity of the String escapeString returns: every byte string of length <= 3 (thorough 4) over a 14-symbol markup alphabet, all small element bodies / attribute lists, generated decorated documents (comments next to text, processing instructions with line breaks, '<' and '<!--' behind '?' / line breaks inside them, entity and numeric references, both quote kinds), mutated and truncated documents, generated element trees incl. depth 1000, long values with many escapes swept across the capacity boundaries of escapeString's buffer (runs of 1..131 of each escapable byte, tails 0..3, plain heads, dense random values).",
-        "note": "Trusted: Lean kernel + propext/Classical.choice/Quot.sound; TRANSLATED from the current sources and proved equal to the model (PropsGen.lean): skipSpace, readToken, parseText, syntaxError, String::isSpace, the loop over one processing instruction in parse, the loop body of escapeString with escapeChars/escapeStrings/lineBreakStrings — trusted there: the translator tools/gen_xml.py and its semantics (Nstd/Xml/CSem.lean: text pointers as offsets with checked reads, findOneOf/find/length/compare as list functions on the C string at a checked offset, `while(test of *e incl. *e != 0) ++e` as a span, signed char comparisons, Position / commentEnd as records, one function per loop body with continue / enter / break / return outcomes); parameterless private helper functions are executed in place, the statements behind a loop are compiled in place at every break, a chain of consecutive byte tests and String::compare(p, lit, n) == 0 become the same condition, `*(dest++) = x` / Memory::copy + advance append to the output of escapeString, the re-seating of its buffer between result.resize and dest = destStart + result.length() is left to escape_no_overflow; the equality proofs split on the byte found by findOneOf (one of the stop set) and evaluate every generated test, so reshaped bodies (harmless C16-h1 / C16-h2) re-prove; a source outside the translated subset (functions with parameters, goto, other loop forms, changed member types) is reported as a broken tie.  HAND-translated and tied by the correspondence run only: the rest of parse (while test, skipSpace calls, root), parseElement (attribute loop, content loop with rewind), unescapeString, Element::toString, Xml.hpp; the hand translation of Xml.cpp into the model (validated by the correspondence run, not proved) — it mirrors the REPAIRED sources (fixes/xml/0001-0005: line breaks in attribute values as &#10;/&#13;, no endless loop on a comment next to text, rewind after a failed look-ahead, line breaks counted inside <?..?>, no white space / comment skipping inside <?..?>); entity table and escape condition of the model are proved equal to the generated ones (escapeByte_is_translation; the buffer constants of escapeString are generated too, tools/areas/xml.py gen -> Nstd/Generated/XmlEscape.lean) and covered by esc/unesc on every single byte and all short strings; hexadecimal character references are not decoded by the code (`&#x41;` stays as it is; recorded in PropsRef.lean, not part of the property).  libnstd String/HashMap/List are used as given (HashMap iteration = insertion order, append replaces an existing key's value); libc strpbrk/strchr/strncmp/strlen are list functions on the C string at a checked offset; glibc sscanf(\"#%u\") is modelled from its observed behaviour (white space, sign, strtoul saturation, cut to 32 bit).  pi_before_root / pi_prologue_skipped hold at full strength for the sources carrying fixes/xml/0005 (inside a processing instruction the loop no longer calls skipSpace, so '<!--' behind a '?' or a line break starts no comment); on sources without it the correspondence run reports \"<?a ?<!--?><r/>\" (corpus/C16/d39-pi-comment.txt).  OPEN in Props.lean: the two-text form of the comment clause (parse(pre++comment++post) vs parse(pre++post)).  'copies of element values are independent': proved on the handle heap model for all operations as INDEPENDENCE (variables other than the target keep their value; the copy gets the source's value); OPEN (PropsHeap.lean): `refines`, the functional effect of clear / text assignment / edits on the TARGET variable itself (tested against an eager-copy Python reference), ; release_fuel_suffices: the fuel handed to the destruction loop always suffices (strictly decreasing measure), that nothing leaks is NOT claimed here — reference-count exactness is C09 (Rc).  The general two-text comment statement for arbitrary (ill-formed) texts is OPEN (Props.lean / PropsDecor.lean).  Stack depth of the recursive C++ parser is not modelled (documents nested 1000 deep are run; 10000 deep overflows the stack, outside the property's bound).  int overflow of line/column not modelled.  Allocation never fails.",
+        "technique": "Lean 4 proof about an executable model of src/Document/Xml.cpp (skipSpace/comment loop, readToken, parseElement/content loop with cursor rewind, processing-instruction loop, unescapeString/escapeString, Element::toString) and of the Xml::Variant / Xml::Element handle heap of Xml.hpp (reference-counted blocks, sharing copies, clear, mutable accessors that clone unless the count is one) + differential correspondence model vs the real Xml.cpp (ASan/UBSan, exactly sized heap copies, watchdog, allocation budget) + independent Python reference (strict regex tokenizer with tag stack, xml.etree, own serialiser, escape/unescape, position checks) + tie by TRANSLATION for the tokenizer: tools/gen_xml.py (lexer + parser + continuation-passing compiler of a C++ subset; refuses what it does not know) rewrites the current bodies of skipSpace / readToken / parseText / syntaxError / String::isSpace / the processing-instruction loop of parse / the loop body and tables of escapeString / unescapeString into Lean on every run (helpers inlined, conditions normalised), and theorems prove the model functions equal to them",
+        "text": "Machine-checked theorems over ALL byte strings / ALL element trees of the model: parse_total (the loop fuel text-length+2 handed to every loop and to the recursion is never exhausted), parse_no_oob (every read goes through peek/cstr which yield .oob behind the terminator; never reached), error_pos_inside (a reported line/column is exactly the line/column of an offset 0..length of the text, CR LF / CR / LF line ends), error_pos_exact, element_positions_exact (every element of a successful parse, at any depth, carries the line/column — computed from the text — of an offset at which a '<' stands; the proof carries 'the cursor's line number and line start are the line state of its offset' through every loop, so a stale line start such as a comment end kept as a bare pointer breaks it), comments_are_whitespace + comments_between_tokens + comments_in_content (same-text forms: at every place where the parser looks for a token or for element content, starting in front of a complete comment equals starting behind it — token, next cursor, children, texts, final cursor; in front of a comment <!--body--> with no earlier '-->' skipSpace continues exactly as its outer loop does behind it, with right line bookkeeping; skipSpace is the only white-space skipper), pi_before_root (a <?..?> with ANY body that does not contain '?>' — '<', '<!--', lone '?', CR / LF / CRLF anywhere — is stepped over by one round of the prologue loop: it ends at its first '?>'), pi_prologue_skipped (end to end: white space + any number of such instructions + '<' of the root: parseDoc = parsing the root at the cursor behind the prologue, line bookkeeping right), escape_unescape (unescape(escape s) = s for text and attribute mode), unescape_no_growth, escape_no_overflow_policy (for EVERY reserve policy that reserves at least the minimum), escape_no_overflow (escapeString's own buffer management — initial slack, reserve at every escape, String::detach rounding, raw pointer writes — modelled with checked memory over constants regenerated from the sources: never a write at or behind the capacity, buffer = escape s), roundtrip / roundtrip_element / roundtrip_inside (parse(toString e) = e up to recorded line/column for every tree with well-formed names, distinct attribute keys, arbitrary NUL-free values, non-blank non-adjacent texts; by mutual induction on the tree with the parser positioned inside a larger text).; PropsDecor: roundtrip_decorated / comments_do_not_change_result (two-text form of the comment clause: for every well-formed tree, every placement of white-space/comment runs at every place where the tokenizer skips white space — before the root, inside start and end tags, around '=', before child elements and end tags, next to text — and either quote kind per attribute, the decorated text parses to the same tree as the plain serialisation); PropsHeap (copy independence on the handle heap, under the invariant 'reference count >= number of handles'): release_keeps_values (dropping handles frees only blocks nobody points to and keeps the value of every variable), step_independent / independent / copy_then_any_history / assign_copies_value / reach_inv (for ALL histories of ALL operations of the model — Variant copy assignment, clear, operator=(const String&) incl. its in-place write when the count is one, and writes through the mutable toElement() down any path (clone of a shared element, replacement of a text/null, in-place use when the count is one) followed by any edit: rename, attribute, append text/element/another variable's Variant, remove first child, Element::clear, text assignment to a content entry —, values of any depth and sharing: the copy has the source's value and a variable no operation writes to keeps its value; the invariant holds in every reachable state).; PropsGen (tie by translation, over Nstd/Generated/XmlScan.lean regenerated from the CURRENT Xml.cpp / String.hpp on every run): skipSpace_is_translation (the model's skipLoop = the iteration of the translated bodies of the outer loop and of the comment loop of skipSpace, for every text, fuel, mode, cursor, commentEnd), readToken_is_translation (the translated body of readToken behind its skipSpace() = the model's tokenAt: token type, value, position, next cursor, error line/column/message; nothing else written), name_scan_is_translation, isSpace_is_translation, syntaxError_is_translation, parseText_is_translation (parseText = iteration of the translated loop body), parsePi_is_translation (the model's piInner = iteration of the translated body of the loop over one processing instruction of Xml::Private::parse), escapeByte_is_translation / escape_is_translation (ONE run of the translated loop body of escapeString — plain-byte test, String::find in escapeChars, choice of escapeStrings / lineBreakStrings entry, writes through dest — appends exactly the model's escapeByte, for both modes and every byte; escape = flatMap of it), unescapeString_body_is_step / unescapeF_is_translation / unescape_is_translation (unescapeString: ONE run of the translated loop body — plain byte, '&' without ';', numeric reference through sscanf(\"#%u\") = '#' + the decimal reader scanU and Unicode::toString = utf8, named entity by first-match search in the generated escapeStrings / escapeChars with the goto out of the table loop, anything else keeps the '&' — is one step of the model's unescapeF; unescape = copied prefix in front of the first '&' ++ the iteration of that body), escapePlain_translated / entityTable_translated; PropsRef: unescape_numeric_ref (every decimal numeric character reference: UTF-8 of its value, 2^64 saturation, cut to 32 bit), utf8_length (boundaries 0x80 / 0x800 / 0x10000 / 0x110000: nothing from 0x110000 on), attrSet_keys / attrSet_lookup_self / attrSet_lookup_other (attribute order = first occurrence, last value of a repeated name wins).  The model is tied to the current Xml.cpp on every run by executing identical op lines (parse, tostr, rt = Xml::toString then parse, esc, unesc, copy, deep; pparse/parser/file/nofile = the public entry points Xml::parse(const String&), Xml::Parser, Xml::save+load incl. their failure branches (missing directory, a directory opened as a file); hassign/hclear/hsetstr/hmut = histories over 4 Xml::Variant variables with the value of EVERY variable printed after EVERY op: copy assignment, clear, text assignment, mutable toElement() along a path followed by rename/attribute/append/remove/clear/text assignment/append of another variable, all histories of <= 3 ops over 12 ops plus state-aware random histories) on both and comparing ok/fail, error line/column/message class, the dump of the parsed tree with element positions, and serialised bytes, and for escm the capacity of the String escapeString returns: every byte string of length <= 3 (thorough 4) over a 14-symbol markup alphabet, all small element bodies / attribute lists, generated decorated documents (comments next to text, processing instructions with line breaks, '<' and '<!--' behind '?' / line breaks inside them, entity and numeric references, both quote kinds), mutated and truncated documents, generated element trees incl. depth 1000, long values with many escapes swept across the capacity boundaries of escapeString's buffer (runs of 1..131 of each escapable byte, tails 0..3, plain heads, dense random values).",
+        "note": "Trusted: Lean kernel + propext/Classical.choice/Quot.sound; TRANSLATED from the current sources and proved equal to the model (PropsGen.lean): skipSpace, readToken, parseText, syntaxError, String::isSpace, the loop over one processing instruction in parse, the loop body of escapeString with escapeChars/escapeStrings/lineBreakStrings, unescapeString (source pointers as suffixes of a NUL-free string; str.scanf(\"#%u\") and Unicode::toString are STATED definitions: CSem.scanfHashU = '#' then the model's scanU (glibc %u as observed: white space, sign, digits, strtoul saturation, cut to 32 bit), utf8 = the encoder of Unicode::append; prologue, loop header and the statements behind the loop checked against their known form) — trusted there: the translator tools/gen_xml.py and its semantics (Nstd/Xml/CSem.lean: text pointers as offsets with checked reads, findOneOf/find/length/compare as list functions on the C string at a checked offset, `while(test of *e incl. *e != 0) ++e` as a span, signed char comparisons, Position / commentEnd as records, one function per loop body with continue / enter / break / return outcomes); parameterless private helper functions are executed in place, the statements behind a loop are compiled in place at every break, a chain of consecutive byte tests and String::compare(p, lit, n) == 0 become the same condition, `*(dest++) = x` / Memory::copy + advance append to the output of escapeString, the re-seating of its buffer between result.resize and dest = destStart + result.length() is left to escape_no_overflow; the equality proofs split on the byte found by findOneOf (one of the stop set) and evaluate every generated test, so reshaped bodies (harmless C16-h1 / C16-h2) re-prove; a source outside the translated subset (functions with parameters, goto, other loop forms, changed member types) is reported as a broken tie.  HAND-translated and tied by the correspondence run only: the rest of parse (while test, skipSpace calls, root), parseElement (attribute loop, content loop with rewind), Element::toString, Xml.hpp; the hand translation of Xml.cpp into the model (validated by the correspondence run, not proved) — it mirrors the REPAIRED sources (fixes/xml/0001-0005: line breaks in attribute values as &#10;/&#13;, no endless loop on a comment next to text, rewind after a failed look-ahead, line breaks counted inside <?..?>, no white space / comment skipping inside <?..?>); entity table and escape condition of the model are proved equal to the generated ones (escapeByte_is_translation; the buffer constants of escapeString are generated too, tools/areas/xml.py gen -> Nstd/Generated/XmlEscape.lean) and covered by esc/unesc on every single byte and all short strings; hexadecimal character references are not decoded by the code (`&#x41;` stays as it is; recorded in PropsRef.lean, not part of the property).  libnstd String/HashMap/List are used as given (HashMap iteration = insertion order, append replaces an existing key's value); libc strpbrk/strchr/strncmp/strlen are list functions on the C string at a checked offset; glibc sscanf(\"#%u\") is modelled from its observed behaviour (white space, sign, strtoul saturation, cut to 32 bit).  pi_before_root / pi_prologue_skipped hold at full strength for the sources carrying fixes/xml/0005 (inside a processing instruction the loop no longer calls skipSpace, so '<!--' behind a '?' or a line break starts no comment); on sources without it the correspondence run reports \"<?a ?<!--?><r/>\" (corpus/C16/d39-pi-comment.txt).  OPEN in Props.lean: the two-text form of the comment clause (parse(pre++comment++post) vs parse(pre++post)).  'copies of element values are independent': proved on the handle heap model for all operations as INDEPENDENCE (variables other than the target keep their value; the copy gets the source's value); OPEN (PropsHeap.lean): `refines`, the functional effect of clear / text assignment / edits on the TARGET variable itself (tested against an eager-copy Python reference), ; release_fuel_suffices: the fuel handed to the destruction loop always suffices (strictly decreasing measure), that nothing leaks is NOT claimed here — reference-count exactness is C09 (Rc).  The general two-text comment statement for arbitrary (ill-formed) texts is OPEN (Props.lean / PropsDecor.lean).  Stack depth of the recursive C++ parser is not modelled (documents nested 1000 deep are run; 10000 deep overflows the stack, outside the property's bound).  int overflow of line/column not modelled.  Allocation never fails.",
         "design_ref": "DESIGN.md 3/C16",
     }
 }
